@@ -1,1 +1,97 @@
-fn main() { println!("stub"); }
+//! vlife — lifecycle checks (C18 memory-limited queries, C19 drop/cancellation, C20 fault propagation).
+//!
+//! `vlife run --in items.ndjson --out results.ndjson [--hang-secs N]`
+//! Input lines are either `{"dataset": name, "tables": [...]}` definitions or items (see run.rs).
+//! Every item runs on its own thread and tokio runtime under a progress watchdog: if the global progress
+//! counter (source polls, udf calls, pool calls, spill writes, root batches) does not move for `hang-secs`
+//! while the item is unfinished, the item is reported as `outcome: "hang"` and its thread is abandoned.
+mod infra;
+mod run;
+
+use serde_json::{Value, json};
+use std::io::Write;
+use std::sync::atomic::Ordering as AO;
+use std::sync::mpsc;
+use std::time::{Duration, Instant};
+use vcommon::util;
+
+fn main() {
+    let a: Vec<String> = std::env::args().collect();
+    if a.len() < 2 || a[1] != "run" {
+        eprintln!("usage: vlife run --in FILE --out FILE [--hang-secs N]");
+        std::process::exit(2);
+    }
+    let inp = util::arg("--in").expect("--in");
+    let outp = util::arg("--out").expect("--out");
+    let hang = Duration::from_secs(util::arg("--hang-secs").and_then(|x| x.parse().ok()).unwrap_or(60));
+    // injected panics are data: keep stderr quiet
+    if std::env::var("VLIFE_PANIC_TRACE").is_err() {
+        std::panic::set_hook(Box::new(|_| {}));
+    }
+    infra::install_hook();
+    let lines = util::read_ndjson(&inp);
+    let mut datasets = run::Datasets::new();
+    let mut items = vec![];
+    for l in lines {
+        if let Some(n) = l.get("dataset").and_then(|x| x.as_str()) {
+            if l.get("sql").is_none() {
+                datasets.insert(n.to_string(), l["tables"].clone());
+                continue;
+            }
+        }
+        items.push(l);
+    }
+    let datasets = std::sync::Arc::new(datasets);
+    let mut f = std::io::BufWriter::new(std::fs::File::create(&outp).unwrap());
+    let (mut n, mut hangs, mut panics) = (0u64, 0u64, 0u64);
+    let t0 = Instant::now();
+    for item in items {
+        let (tx, rx) = mpsc::channel();
+        let ds = std::sync::Arc::clone(&datasets);
+        let it = item.clone();
+        std::thread::Builder::new()
+            .stack_size(32 << 20)
+            .spawn(move || {
+                let r = std::panic::catch_unwind(std::panic::AssertUnwindSafe(|| run::run_item(&it, &ds)));
+                let v = match r {
+                    Ok(v) => v,
+                    Err(p) => {
+                        let msg = p.downcast_ref::<String>().cloned().or_else(|| p.downcast_ref::<&str>().map(|s| s.to_string())).unwrap_or_else(|| "panic".into());
+                        let fired = infra::current().map(|c| c.fired.load(AO::SeqCst)).unwrap_or(false);
+                        json!({"id": it["id"].clone(), "outcome": "panic", "err": msg.chars().take(400).collect::<String>(), "fired": fired})
+                    }
+                };
+                let _ = tx.send(v);
+            })
+            .unwrap();
+        let mut last = infra::PROGRESS.load(AO::Relaxed);
+        let mut last_t = Instant::now();
+        let res: Value = loop {
+            match rx.recv_timeout(Duration::from_millis(200)) {
+                Ok(v) => break v,
+                Err(mpsc::RecvTimeoutError::Timeout) => {
+                    let p = infra::PROGRESS.load(AO::Relaxed);
+                    if p != last {
+                        last = p;
+                        last_t = Instant::now();
+                    } else if last_t.elapsed() > hang {
+                        hangs += 1;
+                        let fired = infra::current().map(|c| c.fired.load(AO::SeqCst)).unwrap_or(false);
+                        break json!({"id": item["id"].clone(), "outcome": "hang", "fired": fired, "idle_s": last_t.elapsed().as_secs()});
+                    }
+                }
+                Err(mpsc::RecvTimeoutError::Disconnected) => break json!({"id": item["id"].clone(), "outcome": "lost"}),
+            }
+        };
+        if res["outcome"] == "panic" {
+            panics += 1;
+        }
+        serde_json::to_writer(&mut f, &res).unwrap();
+        f.write_all(b"\n").unwrap();
+        f.flush().unwrap();
+        n += 1;
+    }
+    util::summary(json!({"items": n, "hangs": hangs, "panics": panics, "wall_s": t0.elapsed().as_secs_f64()}));
+    // abandoned (hung) threads must not keep the process alive
+    std::process::exit(0);
+}
